@@ -107,6 +107,7 @@ struct C03 : public Driver {
             } else if (r < 13) { o["op"] = "compile"; o["xslFault"] = srcFaultAt(gf, s.xsl, destructive); }
             else if (r < 15) { o["op"] = "parse"; o["xerces"] = gf.chance(1, 2); o["docFault"] = srcFaultAt(gf, d.xml, destructive); }
             else if (r < 17) { o["op"] = "param-expr"; std::string e = pickExpr(gf, d.names, dc.deep || dc.manyNames); SrcFault f = SrcFault::fromJson(srcFaultAt(gf, e, destructive)); o["expr"] = applySrcFault(e, f); o["faulted"] = f.destructive();
+                if (destructive && gf.fork("empty-expr").chance(1, 10)) { o["expr"] = ""; o["faulted"] = true; }
                 // a parameter value that makes a lazily evaluated global variable abort the transformation part-way
                 if (gated && gf.chance(2, 3)) { unsigned q = (unsigned)gf.below(3); o["expr"] = q == 0 ? std::string("'abort'") : q == 1 ? std::string("'badkey'") : "'" + d.ids[gf.below(std::min<size_t>(d.ids.size(), 14))] + "'"; o["faulted"] = true; } }
             else if (r < 19) { o["op"] = gf.chance(1, 2) ? "xpath-eval" : "xpath-capi"; std::string e = pickExpr(gf, d.names, dc.deep || dc.manyNames); SrcFault f = SrcFault::fromJson(srcFaultAt(gf, e, destructive)); o["expr"] = applySrcFault(e, f); o["faulted"] = f.destructive(); o["docFault"] = srcFaultAt(gf, d.xml, destructive && gf.chance(1, 3)); { Rng gx = gf.fork("xlia"); o["xercesLiaison"] = gx.chance(1, 3); o["destroyDoc"] = gx.chance(1, 2); o["destroyByDom"] = gx.chance(1, 2); } }
@@ -313,6 +314,9 @@ struct C03 : public Driver {
                 std::string sigOp = o.str("op");
                 // oracle 2: non-zero status comes with a message
                 if (!r.threw && r.status != 0 && r.errEmpty) res.violate("empty-error", sigOp, "non-zero status " + std::to_string(r.status) + " with an empty error message in op " + r.name);
+                // an empty string is not an XPath expression: a parameter the stylesheet declares cannot be given it and the transformation succeed
+                if (sigOp == "param-expr" && o.str("expr").empty() && !r.threw && r.status == 0 && plan.str("xsl").find("<xsl:param name=\"P1\"") != std::string::npos)
+                    res.violate("invalid-input-accepted", "param-expr:empty", "an empty string as the expression of a declared top-level parameter: the transformation reports success");
                 // oracle 1: only documented exceptions escape
                 if (r.threw) {
                     bool okExc = r.exc == "SinkFailure" || (r.exc == "OutOfMemoryException" && mm.refused > 0) || ((sigOp == "xpath-eval") && (r.exc == "XSLException" || r.exc == "XMLException" || r.exc == "SAXException"));
